@@ -59,6 +59,11 @@ ENGINES["file"] = dict(
               "fq6.listed", "fq6.pass", "fq6.no-iana", "fq6.no-mac", "file.comment-line", "file.empty-line", "file.duplicate-mac"],
 )
 
+ENGINES["filec"] = dict(
+    drv="filec", starts=("freset",), trivial=r"$^", noshrink=True,
+    branches=["fhammer4", "fhammer6", "fhammer.old-and-new-seen", "fsetup4.ok", "fsetup6.ok", "fq4.listed", "fq6.listed"],
+)
+
 ENGINES["chain"] = dict(drv="chain", starts=("ccfg",), trivial=r"=> drop$", branches=["chain.cfg4.ok", "chain.cfg6.ok", "chain.drop", "chain.send"])
 ENGINES["allocc"] = dict(drv="alloc", starts=("new6", "new4"), trivial=r"$^", branches=["batch"], noshrink=True)
 ENGINES["rangec"] = dict(drv="range", starts=("rsetup",), trivial=r"$^", branches=["batch"], noshrink=True)
@@ -123,10 +128,10 @@ PROPS = {
                      "plugin names reach the loader lower-cased by viper"],
     ),
     "C01": dict(
-        engines=[("chain", 2500, 60000), ("dispatch4", 3000, 60000), ("dispatch6", 3000, 60000), ("prefix", 1500, 30000)],
+        engines=[("chain", 2500, 60000), ("dispatch4", 3000, 60000), ("dispatch6", 3000, 60000), ("prefix", 1500, 30000), ("filec", 40, 250)],
         theorems=["C01_dispatch4", "C01_dispatch6", "C01_range_never_panics", "C01_alloc6_never_bug", "C01_alloc4_never_panics", "C01_chain_bounded"],
         modules=["CoreDhcp.Props.C01"],
-        facts=["F1", "F2", "F5"],
+        facts=["F1", "F2", "F5", "F10"],
         trusted_base=["insomniacslk/dhcp FromBytes (byte parser assumed total; exercised on mutated datagrams)", "goroutine creation, socket writes, the sleep plugin's bounded delay: runtime, not modelled",
                       "the plug engine's models of the option plugins have no panic outcome by construction; their encoders' preconditions are C19's"],
         assumptions=["every modelled lock is released by defer (fact F1), so no outcome leaves a lock held",
@@ -134,10 +139,10 @@ PROPS = {
                      "'never blocks forever' is covered as: no modelled step waits on anything but a mutex, and every mutex is released"],
     ),
     "C16": dict(
-        engines=[("allocc", 3000, 60000), ("rangec", 1500, 20000), ("prefixc", 3000, 60000), ("dispatch4c", 3000, 60000)],
+        engines=[("allocc", 3000, 60000), ("rangec", 1500, 20000), ("prefixc", 3000, 60000), ("dispatch4c", 3000, 60000), ("filec", 40, 250)],
         theorems=["C16_alloc6_any_schedule", "C16_alloc4_any_schedule", "C16_range_any_schedule", "C16_prefix_any_schedule", "C16_file_any_schedule"],
         modules=["CoreDhcp.Props.C16"],
-        facts=["F1", "F2", "F4"],
+        facts=["F1", "F2", "F4", "F10"],
         race=True,
         trusted_base=["the Go memory model, scheduler and sync.Mutex; the race detector (thorough tier) supports data-race freedom, it proves nothing",
                       "fact F1 (lock discipline) and F4 (receive buffer returned to the pool after parsing, never touched again) are syntactic checks of the source"],
@@ -145,7 +150,7 @@ PROPS = {
                      "concurrent batches are judged by searching a one-at-a-time order under which the Lean model accepts every outcome (linearisability check against the model)"],
     ),
     "C10": dict(
-        engines=[("file", 1500, 20000)],
+        engines=[("file", 1500, 20000), ("filec", 40, 250)],
         theorems=["C10_holds", "C10_accept_iff_wellformed", "C10_mapping_is_file", "C10_all_or_nothing", "C10_own_file", "C10_D8_prefix_refuted"],
         modules=["CoreDhcp.Props.C10"],
         trusted_base=["bytes.Split / strings.Fields / net.ParseMAC / net.ParseIP: each line reaches the model as the fields the code sees with the parsers' answers", "fsnotify delivery ('eventually') is runtime: the harness rewrites the file and waits (bounded) for the served table to be replaced", "dhcpv6.ExtractMAC"],
@@ -274,6 +279,7 @@ RULES = {
     "plug": "per built-in plugin: argument vectors from valid, boundary and invalid values of each argument kind and wrong arity, each set up in a fresh process, followed by 6..15 requests (all request-list shapes incl. absent and empty, option 116/54/siaddr/server-id variants, OFFER/ACK/NAK, assigned/unassigned yiaddr, pre-existing options); trivial = a rejected configuration",
     "config": "YAML documents from the configuration grammar (sections present or not, listen scalar/list/absent/non-scalar, every address/zone/port spelling, interface alias, plugin item shapes) plus mutated text; trivial = unreadable document",
     "chain": "random subsets and orders of the real built-in plugins with valid arguments (fresh process per chain), 10..40 well-formed and mutated datagrams each; trivial = dropped datagram",
+    "filec": "static lease file under autorefresh, both protocols: 8 goroutines looking one client up as fast as they can while the file is rewritten in place over and over, alternately with two versions that differ in one byte (150 ms per burst, 600 ms in the thorough tier); every answer must be the old or the new file's, all lookups must return, the table must settle on the last version",
     "allocc": "k goroutines allocating / freeing at once on nearly full pools; outcomes judged by linearisability search",
     "rangec": "k concurrent DISCOVERs from new, known and duplicated clients on nearly exhausted ranges",
     "prefixc": "3..8 concurrent SOLICITs with two hinted IA_PDs each racing for the last blocks",
